@@ -97,6 +97,11 @@ CHECKS = {
         text="C11_pi_roundtrip (pi_read (pi_write st) = st for every well-formed store: any step or a non-equidistant axis, any ensemble size, any missing pattern, forecast anywhere on the axis), C11_padding_side, C11_resize_keeps, C11_outside_is_missing, C11_csv_precision, C11_csv_exact_on_six_decimals, C11_param_roundtrip, C11_param_keeps_type; generated PI XML files (sub-range series, ensembles with shared series, missing values, forecast on/off/outside the axis, qualifiers, 1 min .. 2 day steps, non-equidistant axes) are read by pi.Timeseries and compared with pi_read in Coq, written back and re-read, resized in sequences and compared with the resize model after every step and after write+read; new files in XML and binary form are re-read and compared with the store (binary at float32) and with pi_read (pi_write st); csv.save/load against fmt6 (both delimiters, decimal commas, empty columns, NaN); NetCDF export/import; ParameterConfig get/set/write/re-read against param_set.",
         note="Trusted: Coq kernel + vm_compute; harness; ElementTree / numpy / netCDF4 codecs are exercised, not modelled; NetCDF has no Coq model (index mapping checked by the harness only); binary PI files are only generated for equidistant axes (the format carries no time stamps); values equal to the file's missVal are excluded (they are missing by the format). No axioms. Eight genuine defects repaired in /repo (ad729a7, 12312f3, c9c1083, 37807ad, b6c2013, 490b91a, 1ecb5c2, b35e79e).",
         ref="DESIGN.md §5 C11"),
+    "C12": dict(
+        technique="Coq proof (seconds axis is a shift of the datetimes; horizon = non-negative part starting at 0; history = part up to t0; bound series, set_timeseries placement, export row and simulator input-feed alignment laws) + correspondence of the Gallina time-axis model against the real CSV / PI / NetCDF optimisation mixins and CSV / PI simulation mixins on generated input folders, with exports re-read and compared across back-ends",
+        text="C12_store_retrieve, C12_horizon_is_nonnegative_part, C12_horizon_starts_at_t0, C12_history_upto_t0, C12_bounds_from_minmax, C12_set_without_times_starts_t0, C12_set_with_times_aligned, C12_export_aligned, C12_sim_input_at_step_end hold for every increasing datetime axis, reference on it, series and index; generated folders (steps of 15 min .. 2 days, t0 anywhere on the axis for PI, 1-3 members, gaps, Min/Max series, history) run through pre(), set/get sequences, optimize()/simulate(); io.datetimes, io.times_sec, times(), history(), bounds(), get_timeseries() per member and the re-read exported files (time stamps, forecast date, values = extract_results at times()) are compared with TimeAxis.v evaluated in Coq, the simulator's outputs are checked against the fed inputs, and the CSV, PI and NetCDF exports of the same data are compared with each other.",
+        note="Trusted: Coq kernel + vm_compute; harness; pymoca, IPOPT and the simulator produce the results that the exports are compared with; variables with their own time grid (writer-side interpolation) are not generated. No axioms. Two genuine defects repaired in /repo (8fa3241 NetCDF export time axis beyond one day, bc5cbaf set_timeseries placement of non-contiguous stamps); bounds observed here also rely on 5cbe9db (C14).",
+        ref="DESIGN.md §5 C12"),
 }
 
 PENDING_REASON = "check not built yet (work in progress; see DESIGN.md §7 build order) — not claimed until its Coq model, theorems and correspondence check run clean on the unchanged tree"
